@@ -168,9 +168,8 @@ class DI:
 
 			curried_args.append(self.resolve(anno))
 
-		if not found:
-			self.__assert_invoke(factory, annos, curried_args, *remain_args)
-
+		# XXX 解決可能な引数は呼び出しの度に変わり得るため、シグネチャーは毎回検証する
+		self.__assert_invoke(factory, annos, curried_args, *remain_args)
 		return factory(*curried_args, *remain_args)
 
 	def __to_annotated(self, injector: Injector[T_Inst]) -> Callable[..., T_Inst]:
